@@ -6,8 +6,14 @@ theorems : lean/GoldModel/Props/C06.lean — ladder_spec (the operator ladder re
            operator_pairs (all 23 x 23 operator pairs, kernel-evaluated on the model:
            `a op1 b op2 c` binds by precedence and associates to the left), range lemmas;
            lean/GoldModel/Props/C06Expr.lean — expr_roundtrip / level_roundtrip / expr_roundtrip_memo: parse_expr (print e ++ k)
-           = (tree e, k, no diagnostics) for every well-formed expression e of the full expression grammar (unbounded).
-tie      : E5 (operator ladder) regenerated from the source; `parse` correspondence.
+           = (tree e, k, no diagnostics) for every well-formed expression e of the full expression grammar (unbounded);
+           lean/GoldModel/Props/C06Prog.lean — stmt_roundtrip / body_roundtrip / block_roundtrip / decl_roundtrip / prog_roundtrip /
+           prog_roundtrip_memo / prog_roundtrip_ex: parse_gold (print p) = (tree p, no diagnostics) for every well-formed PROGRAM p
+           (statements, declarations, types; any size and nesting; expressions abstract, instantiated with Ex);
+           lean/GoldModel/Props/C06ProgText.lean — prog_text_roundtrip: the same from the TEXT (lex_render_layout composed).
+tie      : E5 (operator ladder) regenerated from the source; `parse` correspondence; `exspec` / `progspec`: the Lean specification
+           (Ex / Prog: toks, tree, wfb) evaluated on the real lexer's tokens must re-print them and equal the tree the real parser
+           built (ranges and selection ranges included), zero diagnostics.
 oracle   : grammar-directed generator that emits text + expected tree (vlib/gen/wf.py):
            parse_gold(lex(text)) must have zero diagnostics and the expected shape; every
            node's range encloses its children's; the innermost node at an identifier is it.
@@ -15,7 +21,7 @@ oracle   : grammar-directed generator that emits text + expected tree (vlib/gen/
 import re
 
 from .. import core, ranges, sexp
-from ..gen import wf, parsecases, exspec, words
+from ..gen import wf, parsecases, exspec, words, progspec
 
 RULE = ("cases = well-formed programs from the grammar-directed generator vlib/gen/wf.py (every construct of the supported grammar, depth/size bounded) "
         "under random layout and keyword case, + every ordered pair of binary operators (a op1 b op2 c), + every block statement nested in every "
@@ -83,10 +89,11 @@ def run(ctx):
         "the generator vlib/gen/wf.py IS the statement of 'the tree the grammar prescribes' for the oracle (a second, independent description of the grammar)",
     ]
     ctx.assumptions += [
-        "PARTIAL: the round-trip theorem parse(print p) = expected p is proved for EXPRESSIONS (Props/C06Expr: the full grammar of parse_expr — atoms, "
-        "parentheses, 23 binary operators, prefix/postfix operators, member-access chains with calls and indexing, set literals; no comments between the "
-        "tokens), not for statements and declarations; also proved are the ladder, left-association of the fold, and the complete finite table of "
-        "operator pairs on the model; everything else is established by the generator oracle on the implementation",
+        "PARTIAL: the round-trip theorem parse(print p) = (tree p, no diagnostics) is proved for EXPRESSIONS (Props/C06Expr: the full grammar of "
+        "parse_expr) and for PROGRAMS (Props/C06Prog, unbounded): statements (assignment to any member-access chain, expression statements = every expression parse_assignment leaves alone incl. calls `f(x)` / `a.b.c(1)`, return, exit/break/continue, var [absolute], type, uses, const; if/elseif/else, while, loop, for [step], foreach, repeat/until, switch/when/else — statement lists of any length nested to any depth), declarations (proc/func with Name#Event, parameters, modifiers, forward/external without body, body cut out by take_until; const [multiLang], fields with memory/modifiers/absolute, class [(parent)], module, uses, type, annotations before class/module/type/field and on their own), types (names, sized, refTo/listOf [options] [inverse], ranges, sets, pointers, arrays, instanceOf, enumerations, sums, records, proc/func types); "
+        "NOT covered by a theorem: comments (the token parsers skip them, so where a comment becomes a node depends on what follows it), OQL, "
+        "annotations inside enumerations and records; these, and the implementation itself, are covered by the generator oracle and the ties "
+        "(exspec, progspec: the Lean specification evaluated on the real lexer's tokens = the tree the real parser built)",
     ]
     if ctx.replay:
         return replay(ctx)
@@ -95,6 +102,8 @@ def run(ctx):
     ctx.prove("GoldModel.Props.C06Expr")
     ctx.prove("GoldModel.Props.C06Alts")
     ctx.prove("GoldModel.Props.C06Text")
+    ctx.prove("GoldModel.Props.C06Prog")
+    ctx.prove("GoldModel.Props.C06ProgText")
     if not ctx.build_harness():
         return ctx.finish(rule=RULE)
     q = ctx.tier == "quick"
@@ -143,6 +152,7 @@ def run(ctx):
         ctx.count("generated-program")
     expr_spec(ctx, 3000 if q else 60000, 6)
     words.render_tie(ctx, 3000 if q else 60000)
+    prog_spec(ctx, 2500 if q else 50000, 3)
     lines = parsecases.texts_to_lines(ctx, texts)
     ctx.log("%d programs" % len(lines))
     impl = ctx.run_harness("parse", lines, timeout=1200)
@@ -245,6 +255,60 @@ def expr_spec(ctx, n, depth):
     ctx.log("exspec: constructors exercised (cases): %s" % " ".join("%s=%d" % kv for kv in sorted(used.items())))
     ctx.oblige("tie:exspec", not bad, "%d cases, first: %s" % (len(bad), bad[0] if bad else ""))
     ctx.log("exspec: %d expressions, implementation tree == Ex.tree (ranges included)" % ok)
+
+
+def prog_spec(ctx, n, depth):
+    """tie of the SPEC side of `prog_roundtrip` (Prog.toks / Prog.tree / Prog.wfb, Lean) to the implementation: random abstract
+    programs (declarations, parameters, statements nested to `depth`) are printed, lexed and parsed by the real code; the Lean
+    spec, given the real tokens, must say `well formed`, must print exactly these tokens, and its `Prog.tree` must be the tree
+    the implementation built (kinds, names, ranges, selection ranges), with zero diagnostics"""
+    cases = []
+    for i in range(n):
+        words, prefix, counts = progspec.case(ctx.rng, ctx.rng.below(depth + 1))
+        text = progspec.layout(ctx.rng, words)
+        cases.append((text, words, prefix))
+        ctx.count("prog-spec")
+        for k, v in counts.items():
+            ctx.count("prog-spec:" + k, v)
+    lines = parsecases.texts_to_lines(ctx, [c[0] for c in cases])
+    impl = ctx.run_harness("parse", lines, timeout=1200)
+    spec_lines, usable = [], []
+    bad = []
+    for (text, words, prefix), line in zip(cases, lines):
+        toks = line.split(" ")[1:]
+        if not line.startswith("parse") or len(toks) != len(words):
+            bad.append("the generator's words are not the lexer's tokens: %r" % text)
+            usable.append(False)
+            spec_lines.append("progspec")
+            continue
+        usable.append(True)
+        spec_lines.append("progspec " + " ".join(toks[int(w[1:])] if w.startswith("#") else w for w in prefix))
+    spec = ctx.run_driver(spec_lines, timeout=1200)
+    ok = 0
+    for (text, words, prefix), line, a, sp, u in zip(cases, lines, impl, spec, usable):
+        if not u:
+            continue
+        case = {"mode": "text", "text": text, "case": line}
+        t, d = sexp.field(a, "T"), sexp.field(a, "D")
+        toks = line.split(" ")[1:]
+        w, st, k = sexp.field(sp, "W"), sexp.field(sp, "T"), sexp.field(sp, "K")
+        if w != "1" or (k or "") != ",".join(toks):
+            bad.append("the Lean spec rejects (W=%s) or does not re-print the tokens of a generated program: %r -> %s" % (w, text, sp[:200]))
+            continue
+        if t is None or d:
+            ctx.oracle_fail("C06:diagnostic-on-well-formed-program", "a well-formed program produced %s" % (core.unesc(d or "")[:200] or "no tree"), case)
+            continue
+        if t != st:
+            i = 0
+            while i < min(len(t), len(st)) and t[i] == st[i]:
+                i += 1
+            ctx.oracle_fail("C06:tree-differs-from-intended", "the tree built for a program differs from Prog.tree of the specification",
+                            dict(case, got=t[max(0, i - 300):i + 300], want=st[max(0, i - 300):i + 300]))
+            continue
+        ctx.distinct.add(st)
+        ok += 1
+    ctx.oblige("tie:progspec", not bad, "%d cases, first: %s" % (len(bad), bad[0] if bad else ""))
+    ctx.log("progspec: %d programs, implementation tree == Prog.tree (ranges and selection ranges included), no diagnostics" % ok)
 
 
 def replay(ctx):
